@@ -36,7 +36,7 @@ using F3 = covfie::field<cb::affine<cb::nearest_neighbour<cb::strided<cv::size2,
 using F4 = covfie::field<cb::strided<cv::size1, cb::array<cv::double1>>>;
 constexpr int NTYPES = 5;
 static const char * tname[NTYPES] = {"strided", "morton", "hilbert", "affine<nn<strided>>", "strided1d<double>"};
-static const unsigned EXT[3][2] = {{2, 3}, {3, 1}, {4, 3}};
+static const unsigned EXT[3][2] = {{2, 3}, {5, 2}, {4, 3}};  // padded curve sides 4, 8, 4
 
 template <int T>
 struct type_of;
@@ -256,14 +256,14 @@ struct Pool {
                 vw<T.value>(o.dst).reset();
                 vw<T.value>(o.src).reset();
                 dst = std::move(src);
-                if (o.dst != o.src) vw<T.value>(o.dst).emplace(*fld<T.value>(o.dst));
+                vw<T.value>(o.dst).emplace(*fld<T.value>(o.dst));
             });
             if (o.dst != o.src) {
                 d = m[o.src];
                 m[o.src].state = 2;
-            } else {
-                d.state = 2;  // self-move-assignment: valid but unspecified; treated as moved-from
             }
+            // o.dst == o.src: the property lists self-assignment among the operations after which every live field
+            // still holds the model's values, so a self-move-assigned field stays live and unchanged
             break;
         case CONVERT_COPY:
         case CONVERT_MOVE:
